@@ -29,7 +29,7 @@ type Scenario struct {
 	Starts2   []int   `json:"starts2,omitempty"` // a second index alive at the same time (nil: none)
 	Ends2     []int   `json:"ends2,omitempty"`
 	ScanFirst int     `json:"scan_first,omitempty"` // which index the sequential scans afterwards ask first
-	Progs     [][]int `json:"progs"`                // per goroutine: its calls in order; a call p asks position p%10 of index p/10
+	Progs     [][]int `json:"progs"`                // per goroutine: its calls in order; a call p asks position p%1000 of index p/1000
 }
 
 type Case struct {
@@ -98,7 +98,7 @@ func runOne(sc Scenario, prefix []int) (e *sched.Exec, class, fail string) {
 		t := t
 		bodies[t] = func() {
 			for _, p := range sc.Progs[t] {
-				w, pos := (p/10)%len(idxs), p%10
+				w, pos := (p/1000)%len(idxs), p%1000
 				r := idxs[w].At(pos)
 				answers[t] = append(answers[t], answer{w, pos, slices.Clone(r)})
 				yield(-1)
@@ -143,7 +143,11 @@ func runOne(sc Scenario, prefix []int) (e *sched.Exec, class, fail string) {
 	for pass := 0; pass < 2; pass++ {
 		for k := range idxs {
 			w := (k + sc.ScanFirst) % len(idxs)
-			for i := -1; i <= 3; i++ {
+			hi := 3
+			for _, e := range lists[w][1] {
+				hi = max(hi, e+1)
+			}
+			for i := -1; i <= hi; i++ {
 				var got []int
 				if p := func() (p any) { defer func() { p = recover() }(); got = idxs[w].At(i); return }(); p != nil {
 					return e, "panic-later", fmt.Sprintf("after the concurrent calls, sequential At(%d) on index %d panicked: %v", i, w, p)
@@ -255,7 +259,7 @@ func scenarios(tier string, emit func(Scenario) bool) {
 	if tier == "thorough" {
 		small = append(small, []iv{{1, 1}}, []iv{{0, 1}, {1, 2}}, []iv{{2, 0}, {0, 2}})
 	}
-	calls := []int{0, 1, 2, 10, 11, 12}
+	calls := []int{0, 1, 2, 1000, 1001, 1002}
 	double := func(shape []int) {
 		total := shape[0] + shape[1]
 		for _, la := range small {
@@ -271,8 +275,8 @@ func scenarios(tier string, emit func(Scenario) bool) {
 				for ok {
 					both, one := false, false // some call on each index, else the single-index scenarios cover it
 					for _, x := range pos {
-						both = both || calls[x] >= 10
-						one = one || calls[x] < 10
+						both = both || calls[x] >= 1000
+						one = one || calls[x] < 1000
 					}
 					for first := 0; first < 2 && both && one; first++ {
 						sc.ScanFirst = first // what is asked first afterwards may wipe what the concurrent phase left behind
@@ -303,11 +307,53 @@ func scenarios(tier string, emit func(Scenario) bool) {
 			}
 		}
 	}
+	// Large indexes: a code path that At takes only from some number of pieces on (a dense table built
+	// on first use, a different search) is never entered by indexes of two or three intervals.
+	large := func(shape []int) {
+		total := 0
+		for _, n := range shape {
+			total += n
+		}
+		for _, n := range []int{16, 17, 32, 33, 64} {
+			sc := Scenario{Starts: []int{}, Ends: []int{}}
+			for i := 0; i < n; i++ {
+				sc.Starts, sc.Ends = append(sc.Starts, 2*i), append(sc.Ends, 2*i+1)
+			}
+			menu := []int{0, n, 2*n - 2, 2*n + 5}
+			pos := make([]int, total)
+			for ok {
+				sc.Progs = nil
+				k := 0
+				for _, m := range shape {
+					var pr []int
+					for _, x := range pos[k : k+m] {
+						pr = append(pr, menu[x])
+					}
+					sc.Progs = append(sc.Progs, pr)
+					k += m
+				}
+				if ok = emit(sc); !ok {
+					return
+				}
+				i := total - 1
+				for i >= 0 && pos[i] == len(menu)-1 {
+					pos[i] = 0
+					i--
+				}
+				if i < 0 {
+					break
+				}
+				pos[i]++
+			}
+		}
+	}
 	// simplest first: fewer calls, fewer goroutines
 	single([]int{1, 1})
 	double([]int{1, 1})
+	large([]int{1, 1})
 	single([]int{2, 1})
 	double([]int{2, 1})
+	large([]int{2, 1})
 	single([]int{1, 1, 1})
 	if tier == "thorough" {
 		single([]int{2, 2})
